@@ -6,6 +6,8 @@
   sources, and cancels the handler's context, is net/http + context (sampled by the harness).
 -/
 import ConnectModel.ErrorFlow
+import ConnectModel.HandlerSide
+import ConnectModel.Proto
 import ConnectProofs.C02
 
 namespace ConnectModel.C15
@@ -242,6 +244,249 @@ theorem send_after_ctx_stores (k : CtxKind) :
     `cancel-mid-send` scenario through the verif yield points): -/
 theorem send_ctx_code_payload_fails_on_pinned :
     (envelopeWritePayloadErrorPinned (duplexWriteCtxError .canceled)).codeOf = codeUnknown := by decide
+
+/-! ### fix F16: the state of the call's context classifies what the transport reports
+
+  `net/http` reports `context.Cause(ctx)` when a request's context ends. For a context made with
+  `WithCancelCause` / `WithTimeoutCause` (or a parent of that kind) the cause wraps neither
+  `context.Canceled` nor `context.DeadlineExceeded`, so `wrapIfContextError` cannot see it; after
+  the fix, `makeRequest` and `Read` also ask the context itself. -/
+
+/-- `wrapIfContextError` on an uncoded error: one of three shapes -/
+theorem wrapIfContextError_shape (e : GoError) (hu : e.asError = none) :
+    wrapIfContextError e = .coded 1 e ∨ wrapIfContextError e = .coded 4 e ∨
+      (wrapIfContextError e = e ∧ e.isCtx .canceled = false ∧ e.isCtx .deadline = false) := by
+  unfold wrapIfContextError
+  rw [hu]
+  by_cases hc : e.isCtx .canceled = true
+  · left; simp [hc]
+  · by_cases hd : e.isCtx .deadline = true
+    · right; left; simp [hc, hd]
+    · right; right; simp [hc, hd]
+
+/-- classifying twice is classifying once (`Read` after F16 applies `wrapIfContextError` before
+    and after `wrapIfRSTError`) -/
+theorem duplexReadError_idem (e : GoError) : duplexReadError (wrapIfContextError e) = duplexReadError e := by
+  cases hu : e.asError with
+  | some c => simp [wrapIfContextError, hu]
+  | none =>
+    by_cases hc : e.isCtx .canceled = true
+    · have h1 : wrapIfContextError e = .coded 1 e := by simp [wrapIfContextError, hu, hc]
+      rw [h1]
+      show wrapIfContextError (wrapIfRSTError (GoError.coded 1 e)) = wrapIfContextError (wrapIfRSTError e)
+      rw [wrapIfRST_ctx .canceled e hc, h1]
+      simp [wrapIfRSTError, wrapIfContextError, GoError.asError]
+    · by_cases hd : e.isCtx .deadline = true
+      · have h1 : wrapIfContextError e = .coded 4 e := by simp [wrapIfContextError, hu, hc, hd]
+        rw [h1]
+        show wrapIfContextError (wrapIfRSTError (GoError.coded 4 e)) = wrapIfContextError (wrapIfRSTError e)
+        rw [wrapIfRST_ctx .deadline e hd, h1]
+        simp [wrapIfRSTError, wrapIfContextError, GoError.asError]
+      · have h1 : wrapIfContextError e = e := by simp [wrapIfContextError, hu, hc, hd]
+        rw [h1]
+
+/-- **done_context_classifies**: once the call's context has ended, every uncoded transport error
+    comes out of `wrapIfContextDone ∘ wrapIfContextError` coded canceled or deadline_exceeded —
+    by the error itself when it is a context error, by the context's state otherwise. -/
+theorem done_context_classifies (k : CtxKind) (e : GoError) (hu : e.asError = none) :
+    let r := wrapIfContextDone (some k) (wrapIfContextError e)
+    (r.asError = some 1 ∨ r.asError = some 4) ∧
+    ((e.isCtx .canceled = false ∧ e.isCtx .deadline = false) → r.asError = some (ctxCode k)) := by
+  rcases wrapIfContextError_shape e hu with h | h | ⟨h, hc, hd⟩
+  · rw [h]; simp [wrapIfContextDone, GoError.asError]
+    intro hc _
+    have : e.isCtx .canceled = true := by
+      have := only_context_errors_are_classified e (Or.inl ⟨hc, by assumption⟩)
+      rw [h] at this
+      exact absurd this (by intro heq; have := congrArg GoError.asError heq; simp [GoError.asError, hu] at this)
+    rw [hc] at this; cases this
+  · rw [h]; simp [wrapIfContextDone, GoError.asError]
+    intro hc hd
+    have := only_context_errors_are_classified e (Or.inl ⟨hc, hd⟩)
+    rw [h] at this
+    exact absurd this (by intro heq; have := congrArg GoError.asError heq; simp [GoError.asError, hu] at this)
+  · rw [h]
+    cases k <;> simp [wrapIfContextDone, hu, GoError.asError, ctxCode]
+
+/-- while the context is live the fix changes nothing -/
+theorem live_context_unchanged (e : GoError) : wrapIfContextDone none e = e := by
+  unfold wrapIfContextDone
+  cases e.asError <;> rfl
+
+theorem live_request_unchanged (e : GoError) : doErrorDone none e = doError e := by
+  simp [doErrorDone, doError, live_context_unchanged]
+
+theorem live_receive_unchanged (stored : Option GoError) (e : GoError) :
+    duplexReadErrorDone stored none e = duplexReadErrorStored stored e := by
+  simp [duplexReadErrorDone, duplexReadErrorStored, live_context_unchanged, duplexReadError_idem]
+
+/-- **done_request_code** (F16): `Do` fails after the call's context has ended, with *any* uncoded
+    error (a `*url.Error` around the context's cause, a closed connection, …): the stored error —
+    what the failing operation and every later one report — is canceled or deadline_exceeded,
+    never unavailable; and when the error is not itself a context error, it is the code of the
+    context's own state. -/
+theorem done_request_code (k : CtxKind) (e : GoError) (hu : e.asError = none) :
+    ((doErrorDone (some k) e).codeOf = 1 ∨ (doErrorDone (some k) e).codeOf = 4) ∧
+    ((e.isCtx .canceled = false ∧ e.isCtx .deadline = false) → (doErrorDone (some k) e).codeOf = ctxCode k) := by
+  obtain ⟨h1, h2⟩ := done_context_classifies k e hu
+  have key : ∀ c, (wrapIfContextDone (some k) (wrapIfContextError e)).asError = some c →
+      (doErrorDone (some k) e).codeOf = c := by
+    intro c hc
+    have hr : wrapIfRSTError (wrapIfContextDone (some k) (wrapIfContextError e)) =
+        wrapIfContextDone (some k) (wrapIfContextError e) := by simp [wrapIfRSTError, hc]
+    simp [doErrorDone, hr, hc, GoError.codeOf]
+  refine ⟨?_, fun hn => key _ (h2 hn)⟩
+  rcases h1 with h | h
+  · left; exact key _ h
+  · right; exact key _ h
+
+/-- **done_receive_code** (F16): the response body read fails after the call's context has ended,
+    with any uncoded error that is not the clean end of the body, and whether or not the context
+    watcher has already stored the context's error: `Receive` fails with canceled or
+    deadline_exceeded — at a prefix (after any `n` bytes) or inside a payload. -/
+theorem done_receive_code (k : CtxKind) (bodyErr : GoError) (hne : bodyErr.isEOF = false)
+    (hu : bodyErr.asError = none) (hn : bodyErr.isCtx .canceled = false ∧ bodyErr.isCtx .deadline = false)
+    (stored : Option GoError) (hs : stored = none ∨ stored = setError none (.ctx k)) (n : Nat) :
+    (clientReceiveError (envelopePrefixError n (duplexReadErrorDone stored (some k) bodyErr))).codeOf = ctxCode k ∧
+    (clientReceiveError (envelopePayloadError (duplexReadErrorDone stored (some k) bodyErr))).codeOf = ctxCode k := by
+  have hset : setError none (.ctx k) = some (.coded (ctxCode k) (.ctx k)) := by
+    cases k <;> simp [setError, wrapIfContextError, GoError.asError, GoError.isCtx, ctxCode]
+  have hw : wrapIfContextError bodyErr = bodyErr :=
+    only_context_errors_are_classified bodyErr (Or.inl hn)
+  have hd : wrapIfContextDone (some k) bodyErr = .coded (ctxCode k) bodyErr := by
+    simp [wrapIfContextDone, hu]
+  have hread : duplexReadError (GoError.coded (ctxCode k) bodyErr) = .coded (ctxCode k) bodyErr := by
+    simp [duplexReadError, wrapIfRSTError, wrapIfContextError, GoError.asError]
+  rcases hs with hs | hs
+  · subst hs
+    simp only [duplexReadErrorDone, hne, Bool.false_eq_true, if_false, hw, hd, hread]
+    have hne2 : (GoError.coded (ctxCode k) bodyErr).isEOF = false := by simp [GoError.isEOF, hne]
+    constructor
+    · simp [envelopePrefixError, hne2, GoError.asError, clientReceiveError, GoError.codeOf]
+    · simp [envelopePayloadError, GoError.asError, clientReceiveError, hne2, GoError.codeOf]
+  · rw [hs, hset]
+    simp only [duplexReadErrorDone, hne, Bool.false_eq_true, if_false]
+    have hne2 : (GoError.coded (ctxCode k) (.ctx k)).isEOF = false := by simp [GoError.isEOF]
+    constructor
+    · simp [envelopePrefixError, hne2, GoError.asError, clientReceiveError, GoError.codeOf]
+    · simp [envelopePayloadError, GoError.asError, clientReceiveError, hne2, GoError.codeOf]
+
+/-- **History, F16** — before the fix this was *false*: a cause-carrying context's end reached the
+    caller as unavailable (`Do`) or invalid_argument / unknown (body read). Witnesses, replayed on
+    the implementation by scenario K17 and the `cflow … done=` operations: -/
+theorem done_request_fails_on_pinned : (doError (.wrap .opaque)).codeOf = 14 := by decide
+
+example : (doErrorDone (some .deadline) (.wrap .opaque)).codeOf = 4 := by decide
+example : (doErrorDone none (.wrap .opaque)).codeOf = 14 := by decide
+example : (clientReceiveError (envelopePrefixError 2 (duplexReadErrorDone none (some .canceled) .opaque))).codeOf = 1 := by decide
+
+/-! ### fix F19: the context ends while an over-limit message is being discarded -/
+
+/-- **discard_ctx_code** (F19): `Receive` has met a message over the read limit and is throwing
+    its payload away when the call's context ends; the body read fails (with the context error,
+    or — the watcher having stored it — with anything at all, or with any error while the context
+    is done): `Receive` reports canceled / deadline_exceeded, on enveloped streams and on unary
+    Connect responses alike, not unknown or invalid_argument. -/
+theorem discard_ctx_code (k : CtxKind) (r : GoError) (hr : r.asError = some (ctxCode k)) (hne : r.isEOF = false) :
+    (clientReceiveError (envelopeDiscardError r)).codeOf = ctxCode k ∧
+    (unaryDiscardError r).codeOf = ctxCode k := by
+  constructor
+  · simp [envelopeDiscardError, hne, hr, clientReceiveError, GoError.codeOf]
+  · simp [unaryDiscardError, hr, GoError.codeOf]
+
+/-- … whichever way `duplexHTTPCall.Read` came by the context's code: the error itself … -/
+theorem discard_ctx_code_direct (k : CtxKind) (bodyErr : GoError) (hk : bodyErr.isCtx k = true)
+    (hu : bodyErr.asError = none) :
+    (clientReceiveError (envelopeDiscardError (duplexReadErrorDone none none bodyErr))).codeOf = ctxCode k ∧
+    (unaryDiscardError (duplexReadErrorDone none none bodyErr)).codeOf = ctxCode k := by
+  have hne := isCtx_not_isEOF k bodyErr hk
+  have hw : wrapIfContextError bodyErr = .coded (ctxCode k) bodyErr := by
+    unfold wrapIfContextError
+    rw [hu]
+    cases k with
+    | canceled => simp [hk, ctxCode]
+    | deadline =>
+      have hc : bodyErr.isCtx .canceled = false := by
+        cases hcc : bodyErr.isCtx .canceled with
+        | false => rfl
+        | true => have := isCtx_unique bodyErr hcc; rw [hk] at this; cases this
+      simp [hk, hc, ctxCode]
+  have hrd : duplexReadErrorDone none none bodyErr = .coded (ctxCode k) bodyErr := by
+    simp only [duplexReadErrorDone, hne, Bool.false_eq_true, if_false, hw, live_context_unchanged]
+    simp [duplexReadError, wrapIfRSTError, wrapIfContextError, GoError.asError]
+  rw [hrd]
+  exact discard_ctx_code k _ (by simp [GoError.asError]) (by simp [GoError.isEOF, hne])
+
+/-- … or the stored error of the watcher (F7), whatever the body read then reports -/
+theorem discard_ctx_code_watched (k : CtxKind) (bodyErr : GoError) (hne : bodyErr.isEOF = false) (done : Option CtxKind) :
+    (clientReceiveError (envelopeDiscardError (duplexReadErrorDone (setError none (.ctx k)) done bodyErr))).codeOf = ctxCode k ∧
+    (unaryDiscardError (duplexReadErrorDone (setError none (.ctx k)) done bodyErr)).codeOf = ctxCode k := by
+  have hs : setError none (.ctx k) = some (.coded (ctxCode k) (.ctx k)) := by
+    cases k <;> simp [setError, wrapIfContextError, GoError.asError, GoError.isCtx, ctxCode]
+  have hrd : duplexReadErrorDone (setError none (.ctx k)) done bodyErr = .coded (ctxCode k) (.ctx k) := by
+    simp [duplexReadErrorDone, hne, hs]
+  rw [hrd]
+  exact discard_ctx_code k _ (by simp [GoError.asError]) (by simp [GoError.isEOF])
+
+/-- **History, F19** — before the fix the discard paths re-coded the context's error: -/
+theorem discard_ctx_code_fails_on_pinned :
+    (clientReceiveError (envelopeDiscardErrorPinned (duplexReadError (.ctx .canceled)))).codeOf = codeUnknown ∧
+    (unaryDiscardErrorPinned (duplexReadError (.ctx .canceled))).codeOf = codeInvalidArgument := by decide
+
+/-- a body that simply runs out while an over-limit message is discarded is still "too large" -/
+example : (clientReceiveError (envelopeDiscardError .eof)).codeOf = codeInvalidArgument := by decide
+
+/-! ### fix F17: the second Receive of a unary call -/
+
+/-- **unary_second_receive_keeps_error** (F17): `receiveUnaryResponse` has its message and asks
+    once more, to collect the trailers; if that second `Receive` fails — the context ended between
+    the message and the end of the response — the call fails with *that* error (canceled /
+    deadline_exceeded, as every error from a conn's `Receive` is coded), not with a fresh
+    `unknown`, and the message is not delivered. -/
+theorem unary_second_receive_keeps_error (o : ClientObs) (m : Bytes) (e : CErr)
+    (hm : o.msgs = [m]) (he : o.result = some e) :
+    (unaryWrap o).result = some e ∧ (unaryWrap o).msgs = [] := by
+  simp [unaryWrap, hm, he]
+
+/-- with no failure the one message is the call's result, untouched -/
+theorem unary_single_message_unchanged (o : ClientObs) (m : Bytes) (hm : o.msgs = [m]) (he : o.result = none) :
+    unaryWrap o = o := by
+  simp [unaryWrap, hm, he]
+
+/-! ### fix F18: the handler's context over HTTP/1.1
+
+  That the handler's context is cancelled when the client goes away is net/http's doing. Over
+  HTTP/1.1 the server watches the connection only once the request body has been read to its end
+  (or a response has been started). A handler whose request is a single enveloped message used
+  to read just that message; user code then ran with a context that nothing would ever cancel.
+  After the fix user code starts only when `Receive` has reported the clean end of the request
+  side. (The net/http half is trusted and sampled: scenario K19.) -/
+
+/-- **single_request_read_to_end**: user code of a unary / server-streaming handler runs only
+    after the request side has been read to its clean end, and gets the one message it held. -/
+theorem single_request_read_to_end (r : List Bytes × HEnd) (v : Bytes) (h : singleRequest r = .inl v) :
+    r = ([v], .eof) := by
+  obtain ⟨msgs, e⟩ := r
+  match msgs, e, h with
+  | [], .eof, h => simp [singleRequest] at h
+  | [], .fail _, h => simp [singleRequest] at h
+  | [w], .eof, h => simp [singleRequest] at h; rw [h]
+  | [_], .fail _, h => simp [singleRequest] at h
+  | _ :: _ :: _, _, h => simp [singleRequest] at h
+
+/-- on a well-formed request the fix changes nothing … -/
+theorem single_request_wellformed_unchanged (v : Bytes) :
+    singleRequest ([v], .eof) = singleRequestPinned ([v], .eof) := rfl
+
+/-- … and whatever made the single `Receive` fail before still fails the call with the same code -/
+theorem single_request_first_failure_unchanged (e : HEnd) :
+    singleRequest ([], e) = singleRequestPinned ([], e) := by
+  cases e <;> rfl
+
+/-- **History, F18** — before the fix user code ran with the request side unread: -/
+theorem single_request_pinned_runs_early :
+    ∃ r v, singleRequestPinned r = .inl v ∧ r ≠ ([v], .eof) :=
+  ⟨([[1], [2]], .fail codeInternal), [1], rfl, by decide⟩
 
 /-! non-vacuity: a `*url.Error` wrapping context.DeadlineExceeded -/
 example : (doError (.wrap (.ctx .deadline))).codeOf = 4 := by decide
